@@ -108,13 +108,21 @@ def _grid_spec(rng, game):
         elif name in ("hits", "holds"):
             for _ in range(rng.choice([1, 2, 3, 5] if name == "hits" else [0, 1, 2, 3])):
                 r = {k: M.rand_val(rng, k, v[0]) for k, v in props.items()}
-                for _try in range(20):
+                # objects of one column never touch or overlap (a hold's closed span [start, end] is its own): otherwise
+                # two objects would claim one cell of a written file, which no format can hold
+                ok = False
+                for _try in range(40):
                     r["offset"], r["column"] = t(), rng.randint(0, maxcol)
-                    if (r["offset"], r["column"]) not in used:
+                    ln = rng.choice([125.0, 250.0, 500.0]) if "length" in r else 0.0
+                    a, b = r["offset"], r["offset"] + ln
+                    if all(c != r["column"] or b < s0 or a > e0 for (c, s0, e0) in used):
+                        ok = True
                         break
-                used.add((r["offset"], r["column"]))
+                if not ok:
+                    continue
+                used.add((r["column"], a, b))
                 if "length" in r:
-                    r["length"] = rng.choice([125.0, 250.0, 500.0])
+                    r["length"] = ln
                 if "keysounds" in r:
                     r["keysounds"] = []
                 rows.append(r)
